@@ -34,6 +34,14 @@ pub enum StubScn {
         /// promises its spreading for any sequence of calls, whatever their contexts say)
         #[serde(default)]
         expired: Vec<(u32, u32)>,
+        /// task t's k-th call future is built and dropped without ever being polled (an async
+        /// call that is never polled is no call: it must not count in the rotation)
+        #[serde(default)]
+        unpolled: Vec<(u32, u32)>,
+        /// if set, an extra task builds this many call futures up front and then drives them one
+        /// after another in this order (a permutation), not in the order it built them
+        #[serde(default)]
+        batch_order: Vec<u32>,
     },
     Hash {
         backends: usize,
@@ -107,7 +115,24 @@ pub fn gen(rng: &mut Rng) -> StubScn {
                     expired.push((t, rng.below(tasks[t as usize] as u64) as u32));
                 }
             }
-            StubScn::RoundRobin { backends, tasks, latency, abandon, preempt_permille: *rng.pick(&[0u32, 100, 400, 800]), expired }
+            let mut unpolled = Vec::new();
+            if rng.chance(250) {
+                for _ in 0..rng.range(1, 3) {
+                    let t = rng.below(nt as u64) as u32;
+                    unpolled.push((t, rng.below(tasks[t as usize] as u64) as u32));
+                }
+            }
+            let mut batch_order: Vec<u32> = Vec::new();
+            if rng.chance(250) {
+                let n = rng.range(2, 7) as u32;
+                batch_order = (0..n).collect();
+                // Fisher-Yates with the scenario's own generator
+                for i in (1..n as usize).rev() {
+                    let j = rng.below(i as u64 + 1) as usize;
+                    batch_order.swap(i, j);
+                }
+            }
+            StubScn::RoundRobin { backends, tasks, latency, abandon, preempt_permille: *rng.pick(&[0u32, 100, 400, 800]), expired, unpolled, batch_order }
         }
         6 | 7 => StubScn::Hash {
             backends: rng.range(1, 5) as usize,
@@ -277,11 +302,28 @@ pub fn run(scn: &StubScn, tape: Tape) -> RunOutput {
             let mut tasks = Vec::new();
             let extra: Rc<RefCell<Vec<Violation>>> = Rc::new(RefCell::new(Vec::new()));
             match scn2 {
-                StubScn::RoundRobin { backends, tasks: per_task, latency, abandon, expired, .. } => {
+                StubScn::RoundRobin { backends, tasks: per_task, latency, abandon, expired, unpolled, batch_order, .. } => {
                     let stubs: Vec<Backend> = (0..backends).map(|i| Backend { idx: i, sim: sim.clone(), yields: latency[i].0, sleep_ms: latency[i].1 }).collect();
                     let rr = RoundRobin::new(stubs);
+                    if !batch_order.is_empty() {
+                        let (rr, sim_t, order) = (rr.clone(), sim.clone(), batch_order.clone());
+                        tasks.push(sim.spawn("batch_caller", async move {
+                            sim_t.count("probe.stub_calls_driven_out_of_creation_order");
+                            let mut futs: Vec<Option<std::pin::Pin<Box<dyn std::future::Future<Output = Result<u64, RpcError>>>>>> = Vec::new();
+                            for k in 0..order.len() {
+                                let req = 9_000 + k as u64;
+                                futs.push(Some(Box::pin(rr.call(context::current(), req))));
+                            }
+                            for k in order {
+                                let req = 9_000 + k as u64;
+                                sim_t.log(EvKind::Note { what: "rr_call", a: 99, b: req as i64 });
+                                let r = futs[k as usize].take().unwrap().await;
+                                sim_t.log(EvKind::Note { what: "rr_done", a: req as i64, b: result_code(&r) });
+                            }
+                        }));
+                    }
                     for (t, n) in per_task.iter().enumerate() {
-                        let (rr, sim_t, n, abandon, expired) = (rr.clone(), sim.clone(), *n, abandon.clone(), expired.clone());
+                        let (rr, sim_t, n, abandon, expired, unpolled) = (rr.clone(), sim.clone(), *n, abandon.clone(), expired.clone(), unpolled.clone());
                         tasks.push(sim.spawn(&format!("caller{t}"), async move {
                             for k in 0..n {
                                 let req = (t as u64) * 100 + k as u64;
@@ -290,6 +332,12 @@ pub fn run(scn: &StubScn, tape: Tape) -> RunOutput {
                                 if expired.contains(&(t as u32, k)) {
                                     ctx.deadline = sim_t.instant_at(sim_t.now_ms() - 5);
                                     sim_t.count("probe.stub_call_with_expired_deadline");
+                                }
+                                if unpolled.contains(&(t as u32, k)) {
+                                    let fut = rr.call(ctx, req);
+                                    sim_t.count("probe.stub_call_future_dropped_unpolled");
+                                    drop(fut);
+                                    continue;
                                 }
                                 if abandon.contains(&(t as u32, k)) {
                                     // poll the call once, then drop it
